@@ -126,14 +126,17 @@ def extract_unit(name, src, flags, timeout=900):
     return prefix
 
 
-def _prune_cache(keep, maxdirs=4):
+def _prune_cache(keep, maxdirs=12, min_age_s=1800):
+    """Drop old cache directories (never one that may be in use by a concurrent run)."""
     try:
+        now = time.time()
         ds = [os.path.join(CACHE, x) for x in os.listdir(CACHE)]
         ds = [x for x in ds if os.path.isdir(x) and os.path.basename(x) != keep]
         ds.sort(key=os.path.getmtime)
         import shutil
         for x in ds[:-maxdirs] if len(ds) > maxdirs else []:
-            shutil.rmtree(x, ignore_errors=True)
+            if now - os.path.getmtime(x) > min_age_s:
+                shutil.rmtree(x, ignore_errors=True)
     except OSError:
         pass
 
@@ -393,3 +396,33 @@ def ancestors(pm, n):
             return
         yield p
         n = p
+
+
+def strip_targs(q):
+    """Remove template argument lists from a qualified name, keeping <lambda#N> markers and operator< etc."""
+    out = []
+    depth = 0
+    i = 0
+    n = len(q)
+    while i < n:
+        ch = q[i]
+        if ch == "<":
+            if depth == 0 and q.startswith("<lambda", i):
+                j = q.index(">", i)
+                out.append(q[i:j + 1])
+                i = j + 1
+                continue
+            if depth == 0 and "".join(out).endswith("operator"):
+                out.append(ch)
+                i += 1
+                if i < n and q[i] in "<=":
+                    out.append(q[i])
+                    i += 1
+                continue
+            depth += 1
+        elif ch == ">" and depth:
+            depth -= 1
+        elif depth == 0:
+            out.append(ch)
+        i += 1
+    return "".join(out)
